@@ -28,6 +28,7 @@ func runContent(c *ctx, which string) {
 	rowChecks(c)
 	matchChecks(c)
 	e2eChecks(c, which)
+	rowLimitShapeMerges(c) // merges whose greedy grouping skips and absorbs blocks: nothing lost (C01), nothing twice (C02)
 }
 
 // ---------------------------------------------------------------- unicode tables and tokenizer
@@ -428,12 +429,19 @@ func e2eChecks(c *ctx, which string) {
 	hist := 40 * c.scale
 	for hi := 0; hi < hist; hi++ {
 		h := NewHistory(r)
+		// external writers of these histories hand WriteFileFooter any subset of the file-level filters
+		er := NewRng(c.seed, 1030+uint64(hi))
+		h.ExtFileFilters = func() int { return er.IntN(8) }
 		h.Run(r, 6+r.IntN(10), c.r)
 		if r.Chance(0.5) {
 			if _, err := h.Env.Eng.Merge(context.Background()); err != nil {
 				c.r.Add(Finding{Kind: "disagreement", Check: "history-merge", Detail: "healthy merge failed: " + err.Error(), Replay: h.Ops})
 			}
 			h.Ops = append(h.Ops, "merge (final)")
+		}
+		if r.Chance(0.5) {
+			// an external writer's file that no merge has rewritten yet (its own footer, its own filter set)
+			h.externalFile(r, c.r)
 		}
 		layout, err := h.Layout()
 		if err != nil {
@@ -596,6 +604,15 @@ func e2eChecks(c *ctx, which string) {
 						}
 						c.r.Add(Finding{Kind: "violation", Check: "e2e-" + kind, Detail: fmt.Sprintf("row %d: returned=%v but the %s answer says %v", id, got[id] > 0, kind, expected[id]),
 							Replay: map[string]any{"ops": h.Ops, "row": string(rowOf[id]), "query": q, "tokenizer": h.TM.name}})
+					}
+					if fsOut.Err == nil && (gotFS[id] > 0) != expected[id] {
+						// the same files served from a directory (metadata and filters re-read from each footer)
+						kind := "exact"
+						if hasPre {
+							kind = "block-granular"
+						}
+						c.r.Add(Finding{Kind: "violation", Check: "e2e-" + kind, Detail: fmt.Sprintf("row %d: returned=%v by the filesystem-hosted engine but the %s answer says %v", id, gotFS[id] > 0, kind, expected[id]),
+							Replay: map[string]any{"ops": h.Ops, "row": string(rowOf[id]), "query": q, "tokenizer": h.TM.name, "hosted": "filesystem"}})
 					}
 				}
 			}
